@@ -158,7 +158,15 @@ def gen_case(rng, quick, idx):
                           else rng.choice((1000, 40000, 1 << 20)),
                           ptoggle=rng.choice((0, 0.02, 0.2)), end_combined=rng.random() < 0.4,
                           slow=rng.random() < 0.2, perturb=rng.choice((0, 0, 0.0005, 0.003)), status=rng.choice(STATUSES + [rng.getrandbits(32)]),
-                          window=rng.choice((None, 32768, 65535)), seeds=[rng.getrandbits(32) for _ in range(3)]))
+                          window=rng.choice((None, None, 32768, 40000, 65536, 150000, 1000000)),
+                          packet=rng.choice((None, None, 4096, 32768, 65536)), seeds=[rng.getrandbits(32) for _ in range(3)]))
+        sp = chans[-1]
+        if sp["window"] is not None and rng.random() < 0.8:
+            # the explicit window is what the *opener* grants: let the data flow towards the opener, more than one window of it
+            sp["direction"] = "s2c" if sp["opened_by"] == "c" else "c2s"
+            if sp["window"] <= 150000 and sp["n_out"] + sp["n_err"] <= sp["window"]:
+                sp["n_out"] = max(sp["n_out"], sp["window"] // 2 + 1500)
+                sp["n_err"] = max(sp["n_err"], sp["window"] // 2 + 1500)
     if idx == 0 and chans:  # every shard moves one full-size stream pair
         chans[0].update(n_out=524288 if not quick else 131072, n_err=524288 if not quick else 131072)
     if idx == 2 and chans:  # every shard: sendall of a big buffer through a window that never has a full packet of room
@@ -216,6 +224,40 @@ def check_channel(ctx, ch, case):
         ctx.count("final_phase_bytes_via_recv", ch.tail_from_recv_only)
 
 
+def stall_verdict(ctx, p, ch, case):
+    """Decisive part of a stalled transfer (link drained, readers idling, writers provably parked): if the writer sits on
+    window 0 by its own ledger, the reader has consumed every delivered byte and every adjust it sent has been read,
+    nothing can ever move again -> the stream will stay incomplete."""
+    alive = [t for t in ch.threads[:2] if t.is_alive()]
+    if not alive:
+        return
+    wside = "c" if ch.w is ch.c else "s"
+    rside = "s" if wside == "c" else "c"
+    ev = p.rec.snapshot()
+    wi = [i for i in cm.ledger(ev, wside)[0] if i.serial == ch.w._vf_serial]
+    ri = [i for i in cm.ledger(ev, rside)[0] if i.serial == ch.r._vf_serial]
+    if not wi or not ri:
+        return
+    wi, ri = wi[0], ri[0]
+    sent = sum(e["len"] for e in wi.ev if e["d"] == "out" and e["t"] in (cm.DATA, cm.EXT))
+    credit = wi.credit0 + sum(e["adj"] for e in wi.ev if e["d"] == "in" and e["t"] == cm.ADJUST)
+    rcv = sum(e["len"] for e in ri.ev if e["d"] == "in" and e["t"] in (cm.DATA, cm.EXT))
+    cons = sum(e["len"] for e in ri.ev if e["d"] == "app" and e["t"] == "consume")
+    adj_out = sum(e["adj"] for e in ri.ev if e["d"] == "out" and e["t"] == cm.ADJUST)
+    adj_in = sum(e["adj"] for e in wi.ev if e["d"] == "in" and e["t"] == cm.ADJUST)
+    parked = all("_wait_for_send_window" in " ".join(v) for v in cm.stacks_of(alive).values())
+    facts = dict(sent=sent, credit=credit, received=rcv, consumed=cons, adjusts_sent=adj_out, adjusts_read=adj_in,
+                 window=ri.my_window, parked=parked, got=len(ch.from_recv) + len(ch.from_stderr), want=len(ch.out) + len(ch.err))
+    if parked and sent == credit and rcv == sent and cons == rcv and adj_out == adj_in:
+        ctx.violation("stream incomplete: sender parked on a closed window while the reader has consumed everything",
+                      "writer sent %d = its whole credit, reader consumed all %d bytes and has credited back only %d "
+                      "(window %s): no adjust is in flight, nothing can move, %d of %d bytes delivered" % (
+                          sent, cons, adj_out, ri.my_window, facts["got"], facts["want"]),
+                      dict(channel=ch.idx, spec=ch.spec, facts=facts))
+    else:
+        ctx.note("c21_last_undecided_stall", facts)
+
+
 def check_partial(ctx, ch, case):
     """Transfer did not complete: whatever was delivered must still be a prefix of what was written."""
     desc = dict(channel=ch.idx, spec=ch.spec)
@@ -265,19 +307,27 @@ def run_case(ctx, case, rng, seedbase):
         for i, spec in enumerate(case["channels"]):
             if spec["opened_by"] == "s":
                 n0 = len(inbound)
-                s = p.ts.open_channel("x11", src_addr=("x", 6000 + i), window_size=spec["window"], timeout=30)
+                s = p.ts.open_channel("x11", src_addr=("x", 6000 + i), window_size=spec["window"],
+                                      max_packet_size=spec.get("packet"), timeout=30)
                 if not pair.wait_for(lambda: len(inbound) > n0, 20, 0.002):
                     ctx.inconclusive("client never saw the server-opened channel %d" % i)
                     return
                 c = inbound[n0]
                 ctx.count("server_opened_channels")
             else:
-                c, s = p.session(window_size=spec["window"])
+                c, s = p.session(window_size=spec["window"], max_packet_size=spec.get("packet"))
             if s is None:
                 ctx.inconclusive("server did not see channel %d" % i)
                 return
             if c.chanid != c.remote_chanid:
                 ctx.count("channels_with_local_id_ne_remote_id")
+            if spec["window"] is not None:
+                ctx.count("channels_with_explicit_window")
+                recv_end = c if spec["opened_by"] == "c" else s
+                if (spec["direction"] == "s2c") == (spec["opened_by"] == "c") and spec["n_out"] + spec["n_err"] > spec["window"]:
+                    ctx.count("channels_carrying_more_than_their_explicit_window")
+                if len(case["channels"]) > 1 and any(o["window"] is None for o in case["channels"]):
+                    ctx.count("explicit_window_channels_next_to_default_ones")
             ids = [x.c.chanid for x in chans]
             if c.remote_chanid in ids or any(x.c.remote_chanid == c.chanid for x in chans):
                 ctx.count("channels_whose_remote_id_is_another_live_local_id")
@@ -338,6 +388,8 @@ def run_case(ctx, case, rng, seedbase):
             ctx.count("transfers_stalled")
             for ch in chans:
                 check_partial(ctx, ch, case)
+            for ch in chans:
+                stall_verdict(ctx, p, ch, case)
             if not ctx.violations:
                 diag = [dict(ch=ch.idx, spec={k: ch.spec[k] for k in ("direction", "opened_by", "api", "n_out", "n_err", "window", "maxread", "ptoggle", "end_combined", "perturb")},
                              w_out_window=ch.w.out_window_size, w_closed=ch.w.closed, r_sofar=ch.r.in_window_sofar,
@@ -721,6 +773,9 @@ def run(ctx):
     ctx.require("channels_with_local_id_ne_remote_id", 60)
     ctx.require("channels_whose_remote_id_is_another_live_local_id", 15)
     ctx.require("server_opened_channels", 15)
+    ctx.require("channels_with_explicit_window", 40)
+    ctx.require("channels_carrying_more_than_their_explicit_window", 20)
+    ctx.require("explicit_window_channels_next_to_default_ones", 10)
     ctx.require("sendall_streams_checked", 20)
     ctx.require("window_limited_data_msgs", 40)
     ctx.require("statuses_arriving_after_own_close", 20)
